@@ -43,6 +43,7 @@ pub struct LimitAlloc;
 
 static ALLOC_LIMIT: AtomicUsize = AtomicUsize::new(256 << 20);
 static IN_INPUT: AtomicBool = AtomicBool::new(false);
+static BIG_IN_INPUT: AtomicBool = AtomicBool::new(false);
 thread_local! {
     static IN_HOOK: Cell<bool> = const { Cell::new(false) };
 }
@@ -60,6 +61,10 @@ fn big_allocation(size: usize) {
     let sig = format!("C10:oom:{site}");
     if allowed(&sig) {
         count(&format!("tolerated:{sig}"));
+        // the allocation proceeds; should this input later hit the RSS limit or the CPU budget because of it,
+        // the driver attributes that to this known signature (BEGIN without END in the log)
+        BIG_IN_INPUT.store(true, Ordering::Relaxed);
+        eprintln!("VERIF-BIGALLOC-BEGIN sig={sig} size={size}");
         let _ = IN_HOOK.try_with(|h| h.set(false));
         return;
     }
@@ -382,7 +387,14 @@ pub fn guard<F: FnOnce()>(f: F) {
     let r = panic::catch_unwind(AssertUnwindSafe(f));
     IN_INPUT.store(false, Ordering::Relaxed);
     let used = cpu_now() - t0 - (HOOK_CPU_US.load(Ordering::Relaxed) - h0) as f64 * 1e-6;
-    if used >= *CPU_LIMIT.get().unwrap_or(&10.0) {
+    let had_big = BIG_IN_INPUT.swap(false, Ordering::Relaxed);
+    if had_big {
+        eprintln!("VERIF-BIGALLOC-END");
+    }
+    if used >= *CPU_LIMIT.get().unwrap_or(&10.0) && had_big {
+        // zero-filling / poisoning a tolerated giant buffer is what took the time
+        count("slow_after_tolerated_big_allocation");
+    } else if used >= *CPU_LIMIT.get().unwrap_or(&10.0) {
         // the "never runs unboundedly long" half of the property, judged on CPU time of this one input
         let sig = format!("C10:timeout:{}", TARGET.get().copied().unwrap_or("?"));
         if allowed(&sig) {
